@@ -27,7 +27,7 @@ LEVEL = ("(The three parts of the response are read in a generated order, possib
          "all dipoles and of all polarisations, scale with the fourth power of a common dipole factor, total = REPH + "
          "NONR; for J = 0 the response equals the sum of the responses of one-molecule aggregates on the same axes "
          "(1e-9 of the peak). Any exception from pathway construction is a violation."
-         " Later additions: polarisations set through LabField objects; equal transition energies with different widths; field vectors of general length; aggregate asked for excited states before the response.")
+         " Later additions: polarisations set through LabField objects; equal transition energies with different widths; field vectors of general length; aggregate asked for excited states before the response. Round five: integer polarisation lists; dipole factors of 3e-4; reads through containers (integer and axis indexing); response calculated in units.")
 NOTE = ("Only the mock (analytic line-shape) calculator is reachable offline; TwoDResponseCalculator needs the external "
         "aceto library. 2-3 molecules, 30-point frequency axes, waiting times 0..50 fs. Per-molecule widths (Gaussian) are generated; "
         "Lorentzian shapes use a common dephasing time except in a flagged subset (open known finding: dephasing of "
